@@ -893,6 +893,9 @@ class Interp:
                 pushed = 0
                 try:
                     for x in n.values[i + 1:]:
+                        last = z3.simplify(acc[-1])
+                        if (is_and and z3.is_false(last)) or (not is_and and z3.is_true(last)):
+                            break       # definitely short-circuits: the remaining operands are not evaluated
                         self.hyp.append(acc[-1] if is_and else z3.Not(acc[-1]))
                         pushed += 1
                         try:
@@ -2034,7 +2037,7 @@ class Interp:
     def s_While(self, s):
         k, spec = self._loopspec()
         if spec is None or spec.unroll:
-            bound = (spec.unroll if spec and spec.unroll is not True else 64)
+            bound = (spec.unroll if spec and spec.unroll is not True else 12)
             for _ in range(bound):
                 if not self.ctx.branch(self.truth(self.eval(s.test))):
                     self.exec_block(s.orelse)
